@@ -52,6 +52,15 @@ _p('C10',
    'integral, inherited tau restricted and ADDED under its guard, uold/fold datatype copies after the last write, unlock; prolongation of coarse - coarse_old with += '
    'over the full Pcoll row, f re-evaluated (prolong) or prolonged as a difference (prolong_f); shape rules for the mass and MPI siblings; down/coarse/up order; registry.',
    ['exactness of Rcoll/Pcoll/space transfers (C11)', 'the multigrid iteration-matrix clause'])
+_p('C11',
+   'ONLY the structural last sentence of the statement and the R = c*P^T / Kronecker mechanism are decided: (R1) restrict/prolong of every shipped space-transfer class '
+   'construct their result through the data type of the argument on the target grid, return that object and never write the argument; (R2) multi-component data are '
+   'handled component by component with the same operator (generic loop over .components, or impl/expl arms that are identical up to the component name); (R3) restriction '
+   'uses Rspace and coarse shapes, prolongation Pspace and fine shapes; (R4) Rspace = restr_factor * Pspace.T with restr_factor = 0.5 for rorder > 0 and 1.0 for injection in '
+   'the 1-d and n-d branches, the transposed order-rorder interpolation otherwise, odd orders raise; (R5) n-d operators are Kronecker products in direction order for P and R alike; '
+   '(R6) base_transfer: Rcoll/Pcoll built by get_transfer_matrix_Q(fine->coarse / coarse->fine), applied with the right one in restrict/prolong.',
+   ['polynomial exactness of interpolation_matrix_1d / get_transfer_matrix_Q', 'rows summing to one', 'restriction after prolongation = identity', 'FFT band-limit exactness',
+    'boundary rows of padded stencils - all numeric statements about matrix entries: NOT decided by this check'])
 _p('C12',
    'Purity clause: for each of the contract methods (eval_f*, solve_system*, solve_jacobian, u_exact, apply_mass_matrix, build_f, boris_solver, ...) of every library '
    'problem class a flow-sensitive abstract value (fresh / view-of-parameter / alias-of-parameter / attribute-of-self) is propagated through assignments, branches '
